@@ -149,6 +149,36 @@ theorem C49_template_examples :
     expandTemplate (fun n => if n == "bfe_vip".toList then some "9.8.7.6".toList else none) "%%x-%bfe_vip;".toList
       = "%x-9.8.7.6;".toList := by decide
 
+/-! ### rule tables under reload -/
+
+/-- **Last accepted file wins**: after any history of load attempts the table is the content of the LAST accepted rule
+    file (or the initial table if none was accepted) — nothing of earlier files survives, whatever their version strings. -/
+theorem C49_reload_last_wins {α : Type} (init : Option α) (loads : List (Option α)) :
+    tableAfter init loads = (match loads.reverse.findSome? id with | some c => some c | none => init) := by
+  induction loads generalizing init with
+  | nil => rfl
+  | cons l ls ih =>
+    have hstep : tableAfter init (l :: ls) = tableAfter (match l with | some c => some c | none => init) ls := by
+      cases l <;> rfl
+    rw [hstep, ih, List.reverse_cons, List.findSome?_append]
+    cases ls.reverse.findSome? id with
+    | some c => rfl
+    | none => cases l <;> rfl
+
+/-- a refused reload changes nothing; an accepted one replaces everything: a product that the new file does not list
+    has no rules any more, a listed one has exactly the new rules -/
+theorem C49_reload_replaces {α : Type} (init : Option (List (String × α))) (loads : List (Option (List (String × α))))
+    (c : List (String × α)) (p : String) :
+    tableAfter init (loads ++ [none]) = tableAfter init loads ∧
+    tableSearch (tableAfter init (loads ++ [some c])) p = (c.find? (·.1 == p)).map (·.2) ∧
+    ((c.find? (·.1 == p)).isNone → tableSearch (tableAfter init (loads ++ [some c])) p = none) := by
+  refine ⟨by simp [tableAfter, List.foldl_append], by simp [tableAfter, List.foldl_append, tableSearch], ?_⟩
+  intro h
+  simp only [tableAfter, List.foldl_append, List.foldl_cons, List.foldl_nil, tableSearch]
+  cases hf : c.find? (·.1 == p) with
+  | none => rfl
+  | some x => simp [hf] at h
+
 /-! ### mod_redirect -/
 
 theorem C49_effect_url_set (p host path q : Str) : doRedirect .urlSet p host path q = p := rfl
